@@ -26,3 +26,86 @@ Fixpoint refs_of (s : mstore) (ops : list mop) : mstore * list ref :=
 Definition c10_check (c : c10_case) : bool :=
   let '(s, rs) := refs_of ms0 (map (norm (c10_linked c)) (c10_ops c)) in
   list_eqb Z.eqb (map (read (ms_heap s)) rs) (c10_final_reads c).
+
+(* ---------- call traces (the request programs of Conc.v against the real handlers) ---------- *)
+From VP Require Import Nonce Store Pool Conc.
+
+(* the calls a program makes when run alone from [st], every action reading clock value [now] *)
+Fixpoint solo_trace (fuel : nat) (X E now : Z) (st : sstate) (p : prog) : list sop :=
+  match fuel, p with
+  | S f, Call o k => let '(st', r) := sstep X E now st o in o :: solo_trace f X E now st' (k r)
+  | _, _ => []
+  end.
+
+(* the peers of a keep-alive are credited in the order the driver lists them (map order for the
+   memory driver): runs of consecutive node-balance adds are compared as multisets, and an add
+   of zero (a keep-alive that credited nobody debits 0) is no call at all *)
+Definition pair_leb (a b : N * Z) : bool :=
+  N.ltb (fst a) (fst b) || (N.eqb (fst a) (fst b) && Z.leb (snd a) (snd b)).
+Fixpoint ins_pair (x : N * Z) (l : list (N * Z)) : list (N * Z) :=
+  match l with [] => [x] | y :: r => if pair_leb x y then x :: l else y :: ins_pair x r end.
+Definition flush (run : list (N * Z)) : list sop := map (fun p => AddNodeBal (fst p) (snd p)) run.
+Fixpoint canon (run : list (N * Z)) (l : list sop) : list sop :=
+  match l with
+  | [] => flush run
+  | AddNodeBal q c :: r => if Z.eqb c 0 then canon run r   (* adding nothing: no observable effect *)
+                           else canon (ins_pair (q, c) run) r
+  | o :: r => flush run ++ o :: canon [] r
+  end.
+
+Definition sop_eqb (a b : sop) : bool :=
+  match a, b with
+  | GetNode i, GetNode j => N.eqb i j
+  | SetNode x, SetNode y =>   (* the timestamp is the wall clock's *)
+      N.eqb (n_id x) (n_id y) && N.eqb (n_uri x) (n_uri y) && N.eqb (n_kind x) (n_kind y) &&
+      Bool.eqb (n_host x) (n_host y) && N.eqb (n_payout x) (n_payout y)
+  | NodePeers i, NodePeers j => N.eqb i j
+  | UpdatePeers i l b, UpdatePeers j m c => N.eqb i j && list_eqb N.eqb l m && N.eqb b c
+  | GetNodeBal i, GetNodeBal j => N.eqb i j
+  | AddNodeBal i d, AddNodeBal j e => N.eqb i j && Z.eqb d e
+  | GetAcctBal i, GetAcctBal j => N.eqb i j
+  | AddAcctBal i d, AddAcctBal j e => N.eqb i j && Z.eqb d e
+  | AddAcctNode a i, AddAcctNode b j => N.eqb a b && N.eqb i j
+  | _, _ => false
+  end.
+
+(* what the handler of each pool operation is modelled to call, from the state the history
+   reached; [None] = not a modelled program (deposits, clock shifts, refusals, peer requests) *)
+Definition expected_trace (cfg : pcfg) (s : pstate) (o : pop) (fuel : nat) : option (list sop) :=
+  let st := ps_store s in
+  let X := p_X cfg in let E := p_E cfg in
+  match o with
+  | OUpdate i reported blk now_s now_b =>
+      Some (solo_trace fuel X E now_s st (update_prog cfg i reported blk now_b))
+  | OAddNode w i => Some (solo_trace fuel X E 0 st (add_node_prog w i))
+  | OWithdraw w ok =>
+      if negb (p_settle_enabled cfg) then Some []
+      else let paid := match snd (pstep cfg s o) with OutRes (PPaid _) => true | _ => false end in
+           Some (solo_trace fuel X E 0 st (withdraw_prog w (fun _ => paid)))
+  | OConnect nd =>
+      (* connect_prog reads the balance back unconditionally; the handler only does for clients
+         of a pool with a minimum balance — a read either way *)
+      let reads := match p_min cfg with Some _ => negb (n_host nd) | None => false end in
+      Some (SetNode nd :: if reads then [GetNodeBal (n_id nd)] else [])
+  | _ => None
+  end.
+
+Record trace_case := { tc_cfg : pcfg; tc_items : list (pop * list sop) }.
+
+Fixpoint tfirst_diff (cfg : pcfg) (s : pstate) (items : list (pop * list sop)) (k : nat) : option nat :=
+  match items with
+  | [] => None
+  | (o, obs) :: rest =>
+      let ok := match expected_trace cfg s o (length obs + 8) with
+                | None => true
+                | Some e => list_eqb sop_eqb (canon [] e) (canon [] obs)
+                end in
+      if ok then tfirst_diff cfg (fst (pstep cfg s o)) rest (S k) else Some k
+  end.
+
+Definition trace_check (c : trace_case) : bool :=
+  match tfirst_diff (tc_cfg c) ps0 (tc_items c) 0 with None => true | Some _ => false end.
+
+Inductive c10_any := CSnap (c : c10_case) | CTrace (t : trace_case).
+Definition c10_any_check (c : c10_any) : bool :=
+  match c with CSnap c => c10_check c | CTrace t => trace_check t end.
